@@ -45,8 +45,9 @@ class FakeTime:
         return self.now
 
     def sleep(self, _d):
-        if threading.current_thread().name == 'housekeeping':
-            raise SystemExit            # the background housekeeping thread ends silently; passes are stepped explicitly
+        name = threading.current_thread().name
+        if name == 'housekeeping' or name.startswith('SubscriptionClient'):
+            raise SystemExit            # background housekeeping / renew threads end silently; they are stepped explicitly
         if self.on_sleep:
             self.on_sleep()
 
@@ -598,6 +599,117 @@ class Driver:
         pimpl.provider_components_async_factory = _orig_async_factory
 
 
+# ----------------------------------------------------------------------------- end-to-end scenarios (real SdcConsumer)
+def run_e2e(case):
+    """Real SdcConsumers (real ConsumerSubscriptionManager, path or reference-parameter identification) against
+    the real provider: deliveries after unsubscribe / expiry / renew, SubscriptionEnd handling on shutdown."""
+    import sdc11073.consumer.consumerimpl as cimpl
+    style, is_async = case['style'], bool(case.get('async'))
+    cls = MGR[(style, is_async)]
+
+    def sync_factory():
+        c = _orig_sync_factory()
+        c.subscriptions_manager_class = {'StateEvent': cls, 'Set': cls}
+        return c
+
+    def async_factory():
+        c = _orig_async_factory()
+        c.subscriptions_manager_class = {'StateEvent': cls, 'Set': cls}
+        c.soap_client_class = AsyncTapClient
+        return c
+
+    orig_cc = cimpl.default_components_factory
+
+    def cons_factory():
+        cc = orig_cc()
+        if case.get('cons_ref'):
+            cc.subscription_manager_class = csub.ClientSubscriptionManagerReferenceParams
+        return cc
+
+    pimpl.provider_components_sync_factory = sync_factory
+    pimpl.provider_components_async_factory = async_factory
+    cimpl.default_components_factory = cons_factory
+    FT.now = 1000.0
+    TapClient.tap = []
+    w = None
+    out = []
+    try:
+        w = World(max_subscription_duration=15, async_subscriptions=is_async)
+        if not is_async:
+            w.provider._components.soap_client_class = TapClient
+        drv = Driver.__new__(Driver)
+        drv.mdib = w.provider.mdib
+        conss = [w.add_consumer() for _ in range(case['nconsumers'])]
+        idx = {c._verif_server.netloc: i for i, c in enumerate(conss)}
+        stopped = False
+
+        def snapshot(step, t0):
+            handed = []
+            for r in TapClient.tap[t0:]:
+                handed.append([idx.get(r['netloc']), 'end' if r['action'] == EventingActions.SubscriptionEnd else 'notify',
+                               r['action'].rsplit('/', 1)[-1], bool(r['ok'])])
+            out.append({'step': step, 'handed': sorted(handed, key=json.dumps),
+                        'counters': [sum(s.event_counter for s in c.subscription_mgr.subscriptions.values())
+                                     if c.subscription_mgr is not None else None for c in conss],
+                        'nsubs': [len(c.subscription_mgr.subscriptions) for c in conss],
+                        'subscribed': [[bool(s.is_subscribed) for s in c.subscription_mgr.subscriptions.values()] for c in conss],
+                        'end_status': [[s.end_status for s in c.subscription_mgr.subscriptions.values()] for c in conss]})
+
+        snapshot(['start'], len(TapClient.tap))
+        for step in case['steps']:
+            t0 = len(TapClient.tap)
+            try:
+                if step[0] == 'tx':
+                    drv.tx(step[1])
+                elif step[0] == 'adv':
+                    FT.now += step[1] / 8
+                elif step[0] == 'renew':
+                    rets = [s.renew(60) for s in list(conss[step[1]].subscription_mgr.subscriptions.values())]
+                    step = step + [rets]
+                elif step[0] == 'status':
+                    rets = [s.get_status() for s in list(conss[step[1]].subscription_mgr.subscriptions.values())]
+                    step = step + [rets]
+                elif step[0] == 'unsub':
+                    subs = list(conss[step[1]].subscription_mgr.subscriptions.values())
+                    ok = conss[step[1]].subscription_mgr.unsubscribe_all()
+                    with conss[step[1]].subscription_mgr._subscriptions_lock:       # keep them visible for the snapshot
+                        for s in subs:
+                            conss[step[1]].subscription_mgr.subscriptions[s._filter_text] = s
+                    step = step + [bool(ok)]
+                elif step[0] == 'hk':
+                    for m in w.provider._subscriptions_managers.values():
+                        def once(m=m):
+                            m._run_housekeeping_thread = False
+                        FT.on_sleep = once
+                        m._do_housekeeping()
+                        FT.on_sleep = None
+                elif step[0] == 'stop':
+                    w.provider.stop_all(send_subscription_end=step[1])
+                    stopped = True
+                snapshot(step, t0)
+            except Exception:  # noqa: BLE001
+                out.append({'step': step, 'crash': traceback.format_exc()[-600:]})
+                break
+        for c in conss:
+            try:
+                c.stop_all(unsubscribe=False)
+            except Exception:  # noqa: BLE001
+                pass
+        if not stopped:
+            try:
+                w.provider.stop_all(send_subscription_end=False)
+            except Exception:  # noqa: BLE001
+                pass
+    except Exception:  # noqa: BLE001
+        out.append({'step': ['setup'], 'crash': traceback.format_exc()[-800:]})
+    finally:
+        FT.on_sleep = None
+        pimpl.provider_components_sync_factory = _orig_sync_factory
+        pimpl.provider_components_async_factory = _orig_async_factory
+        cimpl.default_components_factory = orig_cc
+    return out
+
+
 DEFAULT_MAX_ERR = smb.SubscriptionBase.MAX_NOTIFY_ERRORS
 
 
@@ -606,6 +718,9 @@ def main():
     traces = []
     for case in payload['cases']:
         d = None
+        if case.get('e2e'):
+            traces.append(run_e2e(case))
+            continue
         try:
             d = Driver(case)
             traces.append(d.run())
